@@ -109,6 +109,60 @@ mod proofs {
     assert!(agrees(&got, &want));
   }
 
+  /// the same table for leaf texts spelled with a language's *expando* character (what
+  /// `pre_process_pattern` turns the sigil into: `µ` 2 bytes, U+10000 4 bytes, `z`): every
+  /// string of <= NCH characters over {expando, A, Z, a, 0, _}
+  fn check_expando<const NCH: usize, const NB: usize>(e: char) {
+    let mut eb = [0u8; 4];
+    let ew = e.encode_utf8(&mut eb).len();
+    let nch: usize = kani::any();
+    kani::assume(nch <= NCH);
+    let mut buf = [0u8; NB];
+    let mut dollar = [0u8; NCH];
+    let mut len = 0;
+    let mut i = 0;
+    while i < NCH {
+      if i < nch {
+        let c = any_of(b"$AZa0_");
+        dollar[i] = c;
+        if c == b'$' {
+          let mut k = 0;
+          while k < 4 {
+            if k < ew {
+              buf[len + k] = eb[k];
+            }
+            k += 1;
+          }
+          len += ew;
+        } else {
+          buf[len] = c;
+          len += 1;
+        }
+      }
+      i += 1;
+    }
+    let s = as_str(&buf, len);
+    let got = HL(e).extract_meta_var(s);
+    let want = spec(&dollar[..nch], b'$');
+    kani::cover!(matches!(want, Spec::Capture(_, true)));
+    kani::cover!(matches!(want, Spec::Dropped(false)));
+    kani::cover!(matches!(want, Spec::MultiCapture(_)));
+    kani::cover!(matches!(want, Spec::NotAHole) && nch >= 2);
+    assert!(agrees(&got, &want));
+  }
+
+  #[kani::proof]
+  #[kani::unwind(12)]
+  fn c20_metavar_spelling_expando_mu_n5() {
+    check_expando::<5, 10>('\u{b5}');
+  }
+
+  #[kani::proof]
+  #[kani::unwind(22)]
+  fn c20_metavar_spelling_expando_u10000_n5() {
+    check_expando::<5, 20>('\u{10000}');
+  }
+
   #[kani::proof]
   #[kani::unwind(7)]
   fn c20_metavar_spelling_n5() {
